@@ -41,7 +41,7 @@ def make_stub_class(name, spec_holder, rename=True):
     return Stub
 
 
-def body_registry(ctx, n_manual, n_entry, order, rename=True):
+def body_registry(ctx, n_manual, n_entry, order, rename=True, also_entry=False):
     from emsarray.conventions._registry import ConventionRegistry
     names = [f'M{k}' for k in range(n_manual)] + [f'E{k}' for k in range(n_entry)]
     spec = {}
@@ -58,6 +58,10 @@ def body_registry(ctx, n_manual, n_entry, order, rename=True):
     manual = [nm for nm in names if nm.startswith('M')]
     entry = [nm for nm in names if nm.startswith('E')]
     reg.__dict__['entry_point_conventions'] = [classes[nm] for nm in entry]
+    if also_entry and manual:
+        # the first manually registered class is also known through an entry point (a built-in convention registered by
+        # hand to give it priority): it is listed last among the entry points, and still wins ties as a manual one
+        reg.__dict__['entry_point_conventions'] = [classes[nm] for nm in entry] + [classes[manual[0]]]
     perm = list(itertools.permutations(manual))[order % max(1, len(list(itertools.permutations(manual))))] if manual else ()
     for nm in perm:
         reg.add_convention(classes[nm])
@@ -312,6 +316,9 @@ def cases(tier):
         for order in range(nperm):
             yield Case(f'registry:m{n_manual}:e{n_entry}:order{order}', body_registry,
                        dict(n_manual=n_manual, n_entry=n_entry, order=order), max_paths=20000, split=16)
+            if n_manual >= 1 and (order == 0 or not q):
+                yield Case(f'registry:m{n_manual}:e{n_entry}:order{order}:manual-is-also-entry-point', body_registry,
+                           dict(n_manual=n_manual, n_entry=n_entry, order=order, also_entry=True), max_paths=20000, split=16)
             if n_manual + n_entry >= 3 or not q:
                 yield Case(f'registry:m{n_manual}:e{n_entry}:order{order}:same-qualname', body_registry,
                            dict(n_manual=n_manual, n_entry=n_entry, order=order, rename=False), max_paths=20000, split=16)
